@@ -829,19 +829,29 @@ class Inliner:
         assigned_h = _assigned(node)
         mapping = {}
         binds = []
+        # ``return helper(...)`` outside any try: the caller's locals are dead once the arguments
+        # are evaluated, so the helper's locals need no new names -- a parameter that receives the
+        # caller's variable of the same name simply is that variable
+        tail = isinstance(s, ast.Return) and s.value is call and not any(isinstance(n, ast.Try) for n in ast.walk(self.cur.node))
         for p in order:
             arg = bound[p]
             if a.kwarg is not None and p == a.kwarg.arg and isinstance(arg, ast.Dict) and _mentions_kwarg_other_than_star(node, p):
                 raise NotInlinable('**kwargs used other than forwarded')
-            if p not in assigned_h and _simple_arg(arg):
+            if tail and isinstance(arg, ast.Name) and arg.id == p:
+                mapping[p] = p
+            elif p not in assigned_h and _simple_arg(arg):
                 mapping[p] = arg
             else:
                 new = self.fresh(p, k)
                 mapping[p] = new
                 b = ast.Assign(targets=[ast.Name(id=new, ctx=ast.Store())], value=arg, lineno=call.lineno, col_offset=0)
                 binds.append(ast.copy_location(b, call))
+        mentioned = set()
+        for v in list(mapping.values()) + [b.value for b in binds]:
+            if isinstance(v, ast.AST):
+                mentioned |= {x.id for x in ast.walk(v) if isinstance(x, ast.Name)}
         for n in sorted(locals_h - set(mapping)):
-            mapping[n] = self.fresh(n, k)
+            mapping[n] = n if (tail and n not in mentioned) else self.fresh(n, k)
         body = [_Rename(mapping).visit(x) for x in body]
         for x in body:
             for n in ast.walk(x):
